@@ -1,6 +1,6 @@
 # C10 - bounded queue: back-pressure without losing or duplicating items
 import re
-from ..core import norm, relloc, live, calls, evs, Broken, value_origin, Tracer, fmt_trace, rooted, has_back_edge, cond_event
+from ..core import norm, relloc, live, calls, evs, Broken, value_origin, Tracer, fmt_trace, rooted, has_back_edge, cond_event, pos
 from .. import locks, witness
 from ..rules import *
 from .tables import GUARDED
@@ -72,6 +72,17 @@ def push3(ctx, db, rid):
             nsink = len(hand) + len(emp) + len(blk)
             if nsink != 1:
                 bad = bad or ('the item reaches %d sinks on a path (hand-over %d, enqueue %d, block %d): duplicated or lost' % (nsink, len(hand), len(emp), len(blk)), tr); continue
+            # test and act are one critical section: the lock is not released between the first decisive test (waiting pop? room?) and the
+            # moment the item is committed to its sink (waiter taken / item enqueued / entry parked) - a pop that runs in such a gap makes
+            # room or comes to wait without this push noticing (it then blocks on a queue that has room, or enqueues past a waiting pop)
+            tests_ = [i for i, it in enumerate(tr) if it.k == 'branch' and ((cond_event(tr, i) is not None and on(cond_event(tr, i), WAITERS) and op(cond_event(tr, i)) == 'empty') or
+                                                                          re.search(r'::size\) (>=|<|>|<=|==|!=) this->_limit\)', it.path or ''))]
+            commit_ = ([c for c in calls(tr) if on(c, WAITERS) and op(c) == 'pop'] if hand else emp if emp else blk)
+            if tests_ and commit_:
+                ci_ = pos(tr, commit_[0])
+                gap = [it for it in tr[tests_[0]:ci_] if it.k == 'call' and norm(it.get('callee') or '') in ('std::unique_lock::unlock', 'std::mutex::unlock')]
+                if gap:
+                    bad = bad or ('the lock is released between the test (waiting pop / room) and the commit of the item to its sink: the decision is stale when it is acted on', tr)
             if hand:
                 cnt['hand'] += 1
                 wpop = [c for c in calls(tr) if on(c, WAITERS) and op(c) == 'pop']
